@@ -19,7 +19,8 @@ ASYNC = ["AsyncRetry.call", "AsyncRetry.execute", "AsyncRetry.context", "AsyncRe
          "AsyncRetryPolicy.call", "AsyncRetryPolicy.execute", "AsyncRetryPolicy.context",
          "AsyncRetryPolicyCfg.call", "adeco"]
 ALL24 = SYNC + ASYNC
-NO_DECO = [e for e in ALL24 if "deco" not in e] + ["RetryPolicySet.call", "AsyncRetryPolicySet.execute"]
+NO_DECO = [e for e in ALL24 if "deco" not in e] + ["RetryPolicySet.call", "AsyncRetryPolicySet.execute",
+                                                    "RetrySet.execute", "AsyncRetrySet.call"]
 POLICY6 = ["Policy.call", "Policy.execute", "Policy.context", "AsyncPolicy.call",
            "AsyncPolicy.execute", "AsyncPolicy.context"]
 ALPHA = ["ok", "x:T", "x:U", "x:P", "r:T", "abort"]
@@ -59,6 +60,8 @@ def tasks(tier):
                          {"default": "legacy", "per": {"T": "ctx"}}))
     cfgs.append(dict(base, M=1, budget={"max": 1, "window": 8}))
     cfgs.append(dict(base, M=3, strat_obj=True, max_unknown=None))
+    # attempt_timeout_s: an attempt that hangs past the timeout, then further attempts
+    cfgs.append(dict(base, M=3, attempt_timeout=2, durs=[0, 5, 1], max_unknown=None, deadline=None))
     cfgs.append(dict(base, M=3, budget={"max": 1, "window": 8}, deadline=3))
     for cfg in cfgs:
         # family 1: callbacks at policy level, decorator included
@@ -69,8 +72,12 @@ def tasks(tier):
         # family 3: no handler, library default sleeper, breaker attached (Policy entries only)
         c3 = dict(cfg, handler="call" if cfg["M"] == 2 else None, sleeper=None,
                   breaker={"threshold": 1, "window": 8, "recovery": 2, "trip_on": ["T", "U", "P"]})
+        c4 = dict(cfg, handler="both", before_sleep="both", sleeper="both")
         for first in ALPHA:
             w = 1 if first in ("ok", "x:P", "abort") else 6
+            if cfg.get("budget") is None and cfg["M"] == 3:
+                out.append({"family": "agree-both-levels", "cfg": dict(c4, script_prefix=[first]),
+                            "entry": REF, "bound": bound, "variants": NO_DECO, "weight": w})
             out.append({"family": "agree-policy-level", "cfg": dict(c1, script_prefix=[first]),
                         "entry": REF, "bound": bound, "variants": ALL24, "weight": w})
             out.append({"family": "agree-call-level", "cfg": dict(c2, script_prefix=[first]),
@@ -98,6 +105,8 @@ def delivery(norm_end):
         if cause == "result" or reason == "SCHEDULED":
             return ("exhausted", reason, attempts, lk, lexc, lres, nxt)
         if cause == "exception":
+            if isinstance(lexc, str) and lexc.startswith("foreign:"):
+                return ("raised", lexc.split(":", 1)[1])   # an exception created by the library
             return ("exception", lexc)
         return ("failed", reason, attempts, lk, lexc, lres, nxt)
     if e[1] == "raise":
@@ -143,7 +152,10 @@ def run_diff(cfg, entry, ch, variants):
         n += 1
         ch2 = diff_chooser(ch)
         try:
-            w2 = seq.World(full, ch2)
+            full2 = full
+            if full["attempt_timeout"] is not None and (e.startswith("Async") or e == "adeco"):
+                full2 = dict(full, loop=True, sleeper_async=True)
+            w2 = seq.World(full2, ch2)
             w2.call(e)
             if ch2.pos != len(ch2.prefix):
                 raise Divergence(f"{e} asked only {ch2.pos} of {len(ch2.prefix)} questions")
